@@ -34,8 +34,11 @@ Definition join_try (c : jcfg) (w : world) (lowest : N) (e : event) : option (li
            then match j_cursor c with Some cu => hub_through_cursor (h_f (w_hub w)) n cu | None => BErr end
            else blocks_from_num (h_f (w_hub w)) n) with
     | BOk evs =>
-        (* fix: outside target mode the join is made on the identity of the file block *)
-        let same := (j_mode c =? 2) || match evs with b0 :: _ => bid (eblk b0) =? bid (eblk e) | [] => false end in
+        (* fix: the join is made on the identity of the file block (in target-cursor mode: when the cursor block is
+           below the file block) *)
+        let passed := match j_cursor c with Some cu => rn (cu_blk cu) <? n | None => false end in
+        let same := ((j_mode c =? 2) && negb passed)
+                    || match evs with b0 :: _ => bid (eblk b0) =? bid (eblk e) | [] => false end in
         if h_ready (w_hub w) && same then Some evs else None
     | _ => None
     end
